@@ -1,0 +1,112 @@
+//go:build verif
+
+// Contracts for external fetches (properties C31 and C30, reduced cores). Comment-only.
+//
+// validatorAccepted(u): the configured URL validator returned nil for u (the predicate IS that
+// callback's verdict).
+
+package vgirpc
+
+//@ ghost pred validatorAccepted(u string)
+//@ func "field:ExternalLocationConfig.URLValidator" (u)
+//@   establishes result == nil ==> validatorAccepted(u)
+//@ func "captured:validator" (u)
+//@   establishes result == nil ==> validatorAccepted(u)
+
+// the metadata observers touch nothing
+//@ func metaGet
+//@   property C31
+//@   modifies nothing
+//@ func batchMetadata
+//@   property C31
+//@   modifies nothing
+//@ func IsExternalLocationBatch
+//@   property C31
+//@   modifies nothing
+
+// at most three attempts, whatever is configured
+//@ func (*ExternalLocationConfig).maxRetries
+//@   property C31
+//@   modifies nothing
+//@   ensures [capped] result == (c.MaxRetries <= 0 || c.MaxRetries > 2 ? 2 : c.MaxRetries) && 1 <= result && result <= 2
+//@ func (*ExternalLocationConfig).maxRedirects
+//@   property C31
+//@   modifies nothing
+//@   ensures [positive] result == (c.MaxRedirects <= 0 ? 5 : c.MaxRedirects) && result >= 1
+//@ func (*ExternalLocationConfig).maxFetchBytes
+//@   property C31
+//@   modifies nothing
+//@   ensures [positive] result == (c.MaxFetchBytes <= 0 ? 268435456 : c.MaxFetchBytes) && result >= 1
+//@ func (*ExternalLocationConfig).maxDecompressedBytes
+//@   property C31
+//@   modifies nothing
+//@   ensures [positive] result >= 1
+
+// ResolveExternalLocation: nothing is fetched from a URL the validator rejected; the fetch is
+// attempted at most three times with the configured validator and caps; what was fetched is what
+// is check-summed and then parsed, the checksum (when the pointer names one) being computed
+// before the parser sees a byte; only a batch that is neither a log batch nor another pointer is
+// ever retained as the result.
+//
+//@ func ResolveExternalLocation
+//@   property C31, C30
+//@   pathflag shaNamed
+//@   pathflag shaComputed
+//@   loop 0 invariant 0 <= attempt && attempt <= maxAttempts && maxAttempts <= 3 && maxAttempts >= 2
+//@   at call fetchExternalData assert [validatedfirst] old(config.URLValidator) == nil || validatorAccepted(locationURL)
+//@   at call fetchExternalData assert [attempts] attempt < 3 && arg1 == locationURL && arg2 == config.URLValidator
+//@   at call metaGet#2 setflag shaNamed result1
+//@   at call sha256.Sum256 assert [hashfetched] arg0 == fetchedData
+//@   at call sha256.Sum256 mark shaComputed
+//@   at call bytes.NewReader assert [parsefetched] arg0 == fetchedData && fetchErr == nil
+//@   at call bytes.NewReader assert [checksumfirst] shaNamed ==> shaComputed
+//@   at call arrow.RecordBatch.Retain assert [onlydata] !isLog && !(hasLocation && numRows(rec) == 0) && arg0 == rec
+
+// the redirect policy installed for the fetch: a redirect is followed only while the hop count is
+// within the limit and the validator (when there is one) accepts the target
+//
+//@ func fetchExternalData$1
+//@   property C31
+//@   ensures [local_redirectcap] result == nil ==> len(via) <= maxRedirects
+//@   at call "captured:previousRedirectPolicy" assert [checkedfirst] len(via) <= maxRedirects
+//@   ensures [local_limit_ret1] result != nil
+
+// fetchExternalData: one GET of the given URL under that policy; at most cap+1 bytes are read and
+// a longer body is refused; a zstd body is decoded under the decompression cap
+//
+//@ func fetchExternalData
+//@   property C31
+//@   requires maxFetchBytes > 0 && maxDecompressedBytes > 0 && maxRedirects > 0
+//@   at call (*http.Client).Get assert [url] arg1 == rawURL
+//@   at call io.LimitReader assert [readatmost] arg1 == wrap(maxFetchBytes + 1, "int64")
+//@   at call decompressZstdCapped assert [decodedcap] arg1 == maxDecompressedBytes && len(arg0) <= maxFetchBytes
+//@   ensures [local_caps_ret10] result1 == nil && (len(result0) <= maxFetchBytes || len(result0) <= maxDecompressedBytes)
+
+//@ func decompressZstdCapped
+//@   property C31
+//@   ensures [capped] result1 == nil && cap > 0 ==> len(result0) <= cap
+
+// redactExternalURL: the rendered URL has no user info, query or fragment
+//
+//@ func redactExternalURL
+//@   property C31
+//@   at call (*url.URL).String assert [stripped] u.User == nil && u.RawQuery == "" && !u.ForceQuery && u.Fragment == ""
+
+// externalizeBatchCtx (C30): a batch is externalized only when it has rows and its buffer size
+// reaches the threshold; the checksum placed on the pointer is the SHA-256 of the serialized
+// batch itself (before compression); what is uploaded is that serialization, zstd-encoded exactly
+// when the "zstd" coding is declared to the storage; the charged raw size is its length.
+//
+//@ func (*ExternalLocationConfig).threshold
+//@   property C30
+//@   modifies nothing
+//@   ensures [value] result == (c.ExternalizeThresholdBytes <= 0 ? 1048576 : c.ExternalizeThresholdBytes)
+//@ func externalizeBatchCtx
+//@   property C30
+//@   at call serializeBatchAsIPC assert [eligible] arg0 == batch && numRows(batch) != 0
+//@   at call sha256.Sum256 assert [checksumofserialized] arg0 == ipcData && err == nil
+//@   at call hex.EncodeToString assert [hexofhash] len(arg0) == 32
+//@   at call (*zstd.Encoder).EncodeAll assert [compresswhole] arg1 == ipcData
+//@   at call ExternalStorage.Upload assert [declaredcoding] arg3 == contentEncoding && (contentEncoding == "" || contentEncoding == "zstd") && arg1 == ipcData
+//@   at call MakeExternalLocationBatch assert [pointer] arg1 == locationURL && len(arg2) == 1 && arg2[0] == sha256Hex
+//@   ensures [local_charged_ret7] result3 == nil && result2 == rawBytes
